@@ -268,23 +268,26 @@ func (r vRec) Fail() (vRec, error) {
 }
 
 var opaqueKinds = map[string]func() interface{}{
-	"nilptr_struct": func() interface{} { return (*vStruct)(nil) },
-	"nilptr_int":    func() interface{} { return (*int)(nil) },
-	"ptr_struct":    func() interface{} { return &vStruct{Name: "s"} },
-	"ptr_int":       func() interface{} { return new(int) },
-	"struct":        func() interface{} { return vStruct{} },
-	"nil_slice":     func() interface{} { return []string(nil) },
-	"empty_slice":   func() interface{} { return []int{} },
-	"nil_map":       func() interface{} { return map[string]int(nil) },
-	"empty_map":     func() interface{} { return map[string]string{} },
-	"int8_zero":     func() interface{} { return int8(0) },
-	"uint_zero":     func() interface{} { return uint(0) },
-	"float32_zero":  func() interface{} { return float32(0) },
-	"int64_one":     func() interface{} { return int64(1) },
-	"time":          func() interface{} { return time.Time{} },
-	"func":          func() interface{} { return func() {} },
-	"empty_array":   func() interface{} { return [0]int{} },
-	"slice_str":     func() interface{} { return []string{"a"} },
+	"nilptr_struct":    func() interface{} { return (*vStruct)(nil) },
+	"nilptr_int":       func() interface{} { return (*int)(nil) },
+	"ptr_struct":       func() interface{} { return &vStruct{Name: "s"} },
+	"ptr_int":          func() interface{} { return new(int) },
+	"struct":           func() interface{} { return vStruct{} },
+	"nil_slice":        func() interface{} { return []string(nil) },
+	"empty_slice":      func() interface{} { return []int{} },
+	"nil_map":          func() interface{} { return map[string]int(nil) },
+	"empty_map":        func() interface{} { return map[string]string{} },
+	"int8_zero":        func() interface{} { return int8(0) },
+	"uint_zero":        func() interface{} { return uint(0) },
+	"float32_zero":     func() interface{} { return float32(0) },
+	"int64_one":        func() interface{} { return int64(1) },
+	"time":             func() interface{} { return time.Time{} },
+	"func":             func() interface{} { return func() {} },
+	"empty_array":      func() interface{} { return [0]int{} },
+	"slice_str":        func() interface{} { return []string{"a"} },
+	"ptr_false":        func() interface{} { return new(bool) },
+	"ptr_empty_string": func() interface{} { return new(string) },
+	"ptr_empty_html":   func() interface{} { return new(template.HTML) },
 }
 
 // ------------------------------------------------------------------ recording helpers
@@ -711,6 +714,7 @@ type semCase struct {
 	Expect expectation         `json:"expect"`
 	Shape  string              `json:"shape"`
 	NOps   int                 `json:"nops"`
+	Cache  bool                `json:"cache"` // rendered with plush.CacheEnabled (semRun.CacheOn)
 	// GenRoutes: whether the payload started as trusted HTML, and the payload
 	// names of Data that reach the template through the context.Context the root is built around
 	Wrapped []string `json:"wrapped"`
